@@ -16,7 +16,13 @@ import time
 VERIF = os.path.dirname(os.path.dirname(os.path.abspath(__file__)))
 # changes that break a second property as well, or are observable only through another family
 EXTRA = {"C01-no-truncate": ["C17"], "C01-global-ofile-first-only": ["C15"], "C10-zero-struct-sticky": ["C12"], "C18-fmt-when-wraperrors-off": ["C12"],
-         "C09-cwd-not-abs": ["C15"], "C16-no-truncate": ["C17"]}
+         "C09-cwd-not-abs": ["C15"], "C16-no-truncate": ["C17"],
+         # round 2: the observable effect is (also) a fingerprint of another property
+         "C06-regex-extend-loses-local-context": ["C14", "C19"], "C12-field-setting-on-non-struct-accepted": ["C05"],
+         "C04-interface-passed-as-is": ["C03"], "C04-unexported-same-type-assigned": ["C03"],
+         "C03-ignoremissing-swallows-ambiguous": ["C05"], "C03-ignoreunexported-only-inaccessible": ["C05"],
+         "C10-return-nil-inside-source-nil-guard": ["C01"], "C02-array-target-without-length-check": ["C03"],
+         "C18-array-target-fmt-panic": ["C03"], "C18-bytes-clone-helper-import": ["C02"]}
 
 
 def sh(cmd, **kw):
